@@ -69,6 +69,18 @@ func (g *Gen) name() []rune {
 		n = 0
 	}
 	var out []rune
+	if g.R.Intn(6) == 0 {
+		// Latin-1 only: every code unit has a zero high byte, some are above U+007F ("Intel® GOP Driver") —
+		// the strings on which a single-byte fast path and the real UCS-2 decoder differ (seeded defect c01-7)
+		for i := 0; i < n; i++ {
+			if g.R.Intn(3) == 0 {
+				out = append(out, rune(0x80+g.R.Intn(0x80)))
+			} else {
+				out = append(out, rune(' '+g.R.Intn(95)))
+			}
+		}
+		return out
+	}
 	for i := 0; i < n; i++ {
 		switch g.R.Intn(12) {
 		case 0:
